@@ -14,6 +14,7 @@ import ProphyModel.Raw
 import ProphyModel.Api
 import ProphyModel.Typing
 import ProphyModel.Copy
+import ProphyModel.Files
 open Lean Prophy Prophy.Driver
 
 structure DState where
@@ -200,6 +201,21 @@ def handle (st : DState) (j : Json) : Except String (DState × Json) := do
         Json.mkObj [("exc", match e with | some x => Json.str (excName x) | none => Json.null),
                     ("state", valToJson nv), ("typed", hasType ty nv)] :: go nv r
     pure (st, Json.mkObj [("init", valToJson init), ("init_typed", hasType ty init), ("steps", Json.arr (go init ops).toArray)])
+  | "prophyc_files" =>
+    let strs := fun (x : Json) => do pure ((← x.getArr?).toList.mapM (·.getStr?))
+    let fs ← (← getArr j "files").toList.mapM (fun f => do
+      pure ({ id := ⟨← getStr f "dir", ← getStr f "leaf"⟩,
+              includes := ← (← strs (← f.getObjVal? "includes")),
+              defines := ← (← strs (← f.getObjVal? "defines")) } : Files.File))
+    let dirs ← (← strs (← j.getObjVal? "include_dirs"))
+    let mains ← (← getArr j "mains").toList.mapM (fun f => do
+      pure (⟨← getStr f "dir", ← getStr f "leaf"⟩ : Files.FileId))
+    match Files.processMains fs dirs mains [] with
+    | .ok rs => pure (st, Json.mkObj [("results", Json.arr (rs.map fun (f, r) => Json.mkObj [
+        ("leaf", f.leaf), ("visible", Json.arr (r.visible.map Json.str).toArray),
+        ("parsed", Json.arr (r.parsed.map fun g => Json.str (g.dir ++ "/" ++ g.leaf)).toArray)]).toArray)])
+    | .error (.notFound l) => pure (st, Json.mkObj [("error", "not found"), ("leaf", l)])
+    | .error (.cyclic f) => pure (st, Json.mkObj [("error", "cyclic"), ("leaf", f.leaf)])
   | "py_copy" =>
     let ty ← getTy st j
     let v ← valOfJson (← j.getObjVal? "v")
